@@ -112,6 +112,8 @@ def rand_cfg(rng, profile=None, names="plain", max_vars=4, max_terms=3, max_prod
     nt = rng.randint(1, max_terms)
     if names == "cnf":
         vs = ["S"] + rng.sample(["C#CNF#1", "C#CNF#2", "C#CNF#3", "C#CNF#5", "a#CNF#", "b#CNF#"], nv - 1)
+        if nv >= 3 and rng.random() < 0.5:      # the first fresh names are all taken: the counter has to skip several of them
+            vs = ["S", "C#CNF#1", "C#CNF#2"] + (["C#CNF#3"] if nv >= 4 else [])
     else:
         vs = (VARS if names == "plain" else rng.sample(ADV_VARS, len(ADV_VARS)))[:nv]
     if names != "plain" and "S" not in vs:
@@ -162,6 +164,8 @@ def rand_cfg(rng, profile=None, names="plain", max_vars=4, max_terms=3, max_prod
         else:
             b = rbody(max_body if rng.random() < 0.3 else 3, 0.45)
         prods.append([h, b])
+    if profile == "cnfnames" and not any(len(b) >= 3 for _, b in prods):
+        prods.append([vs[0], [["T", rng.choice(ts)] if rng.random() < 0.6 else ["V", rng.choice(vs)] for _ in range(rng.randint(3, 4))]])
     if profile == "unitcycle" and nv >= 2:
         cyc = rng.sample(vs, rng.randint(2, nv))
         for i in range(len(cyc)):
